@@ -395,6 +395,14 @@ pub fn conclude(
     replay: ReplayFn,
     shrink: ShrinkFn,
 ) -> i32 {
+    if std::env::var("VERIF_HASH_ONLY").is_ok() {
+        // determinism self-test: only the per-sim event-log hashes, no files written
+        for (i, h) in rep.per_sim_hash.iter().enumerate() {
+            println!("PERSIM {} {:016x}", i, h);
+        }
+        println!("BATCHHASH {:016x} sims={} evaluations={} violations={}", rep.batch_hash, rep.sims, rep.evaluations, rep.violations.len());
+        return 0;
+    }
     let known = load_known_findings(&ctx.verif_dir);
     // One representative (lowest sim index) per class.
     let mut by_class: BTreeMap<String, Violation> = BTreeMap::new();
